@@ -273,12 +273,13 @@ def frame_obligations(eng, contract, src):
             eng.heap, eng.lists = saved_heap, saved_lists
     # declared map cells (evaluated in the entry state)
     cells = []
-    if contract.modifies_maps:
+    all_mm = contract.modifies_maps + contract.variant_modifies_maps.get(eng.sh.variant_name, [])
+    if all_mm:
         saved_heap, saved_lists = eng.heap, eng.lists
         eng.heap = dict(eng.heap0)
         eng.lists = eng.snapshot_lists()
         try:
-            for mexpr, kexpr in contract.modifies_maps:
+            for mexpr, kexpr in all_mm:
                 mobj = eng.force(eng.eval_clause(mexpr))
                 cells.append((mobj, eng.map_key(eng.eval_clause(kexpr))))
         finally:
